@@ -30,7 +30,7 @@ def jobs(tier):
         for n in ((2, 3, 4) if thorough else (2, 4)):
             js.append(Job("contains_point%s.n%d" % (sfx, n), "C07/contains_point.c", defines=dict(d, VC_NMIN=n, VC_NMAX=n),
                           kind="bounded", bound="region of %d rects (any canonical band layout, any coordinates)" % n,
-                          functions=[fn + "contains_point", "find_box_for_y"], unwind=6, timeout=400, min_props=4,
+                          functions=[fn + "contains_point", "find_box_for_y"], unwind=6, timeout=600, min_props=4,
                           domain="%d rects in canonical form, all coordinates, any query point, box given or NULL" % n))
         slices = [(n, lo) for n in (2, 3, 4) for lo in range(0, n + 1)] if thorough else ([(4, 0), (3, 1)] if not b16 else [(4, 0)])
         for n, lo in slices:
@@ -41,7 +41,7 @@ def jobs(tier):
 
         # ---------------------------------------------------------------- contains_rectangle
         js.append(Job("contains_rectangle%s.n01" % sfx, "C07/contains_rect.c", defines=dict(d, VC_NMIN=0, VC_NMAX=1, VC_MODE=1),
-                      kind="proof", functions=[fn + "contains_rectangle"], unwind=3, timeout=400, min_props=8,
+                      kind="proof", functions=[fn + "contains_rectangle"], unwind=3, timeout=900, min_props=8,
                       assumptions=NONEMPTY_Q,
                       domain="empty or single-rect region (single-rect and extents-reject paths), any non-empty query rectangle, "
                              "all coordinates; exact IN/OUT/PART in closed form + two ghost points"))
@@ -72,12 +72,12 @@ def jobs(tier):
         # ---------------------------------------------------------------- translate
         tfn = fn + "translate"
         js.append(Job("translate%s.inrange.n01" % sfx, "C07/translate.c", defines=dict(d, VC_NMIN=0, VC_NMAX=1, VC_RANGE=0),
-                      kind="proof", functions=[tfn], unwind=5, timeout=300, min_props=5, cbmc_flags=LEAK,
+                      kind="proof", functions=[tfn], unwind=5, timeout=900, min_props=5, cbmc_flags=LEAK,
                       domain="empty or single-rect region, all coordinates, every (dx,dy) keeping the region inside [MIN,MAX]; "
                              "ghost point with 64-bit coordinates; all point-set and shape obligations"))
         for n in (2, 3):
             js.append(Job("translate%s.inrange.n%d" % (sfx, n), "C07/translate.c", defines=dict(d, VC_NMIN=n, VC_NMAX=n, VC_RANGE=0),
-                          kind="bounded", bound="%d rects" % n, functions=[tfn], unwind=5, timeout=400, min_props=5, cbmc_flags=LEAK,
+                          kind="bounded", bound="%d rects" % n, functions=[tfn], unwind=5, timeout=1200, min_props=5, cbmc_flags=LEAK,
                           domain="%d canonical rects, every (dx,dy) keeping the region inside [MIN,MAX]: every rect shifted exactly" % n))
         if b16:
             parts = [(1, "points", "point set shifted by (dx,dy) and clipped to [MIN,MAX)"),
@@ -94,21 +94,21 @@ def jobs(tier):
                                   defines=dict(d, VC_NMIN=0 if n == 1 else n, VC_NMAX=n, VC_RANGE=1, VC_PART=part,
                                                VC_COAL=1 if part == 5 else 0),
                                   kind="proof" if n == 1 else "bounded", bound="" if n == 1 else "%d rects" % n,
-                                  functions=[tfn] + (["pixman_set_extents"] if n > 1 else []), unwind=6, timeout=400, min_props=1,
+                                  functions=[tfn] + (["pixman_set_extents"] if n > 1 else []), unwind=6, timeout=1200, min_props=1,
                                   cbmc_flags=LEAK, assumptions=A16,
                                   domain="%s, |dx|,|dy| <= 2^30 (overflow/clamp branches): %s"
                                          % ("empty or single-rect region" if n == 1 else "%d canonical rects" % n, what)))
         # full (dx,dy) domain: the additions of the code overflow int (UB); checked with wrap-around semantics in CBMC
         # (--no-signed-overflow-check) so that ONE named obligation fails; UBSan traps in the native replay
         js.append(Job("translate%s.anydelta.n01" % sfx, "C07/translate.c", defines=dict(d, VC_NMIN=0, VC_NMAX=1, VC_RANGE=2, VC_PART=1),
-                      kind="proof", functions=[tfn], unwind=5, timeout=300, min_props=3,
+                      kind="proof", functions=[tfn], unwind=5, timeout=900, min_props=3,
                       cbmc_flags=LEAK + ["--no-signed-overflow-check"],
                       domain="empty or single-rect region, every (dx,dy) in int x int"))
 
         if b16:
             # same domain with the verifier's signed-overflow checks on and no harness obligation: exposes the UB itself
             js.append(Job("translate16.anydelta.n01.ub", "C07/translate.c", defines=dict(d, VC_NMIN=0, VC_NMAX=1, VC_RANGE=2, VC_PART=6),
-                          kind="proof", functions=[tfn], unwind=5, timeout=300, min_props=3, cbmc_flags=LEAK,
+                          kind="proof", functions=[tfn], unwind=5, timeout=900, min_props=3, cbmc_flags=LEAK,
                           domain="empty or single-rect region, every (dx,dy) in int x int: no signed overflow in the code's own arithmetic"))
 
         # ---------------------------------------------------------------- init_from_image
@@ -119,7 +119,7 @@ def jobs(tier):
                               defines=dict(d, VC_W=w, VC_H=1, VC_NOFAIL=1, VC_COAL=0, RQ_IMG_MAXRECTS=2),
                               kind="bounded", bound="a1 image %d x 1 (symbolic bits, padding and stride 2 or 3 words)" % w,
                               functions=[fn + "init_from_image", "bitmap_addrect", "pixman_rect_alloc"], unwind=8,
-                              timeout=600 if w == 2 else 2400, min_props=6, assumptions=NOFAIL,
+                              timeout=900 if w == 2 else 2400, min_props=6, assumptions=NOFAIL,
                               domain="width %d, height 1, every bit pattern; any point in int x int: in region <=> bit set" % w))
     return js
 
